@@ -2,6 +2,9 @@
 import itertools
 from valve_common import *
 from quake_common import quake_specs, quake_case
+from gs_common import gs_specs, gs_case, LIMIT as GS_LIMIT
+from u2_common import u2_specs, u2_case
+from vlib import run_model
 
 ID = "C10"
 PROPS_FILE = "C10"
@@ -11,7 +14,8 @@ TRUSTED = [
     "extraction (ExtrOcamlBasic), extract/driver.ml, Rust harness + scripted transport hook (timeouts and send failures are script events)",
     "the expected outcome of a fault vector is computed by the check from the property text (tools/props/valve_common.py unit_outcome)",
 ]
-RULE = ("for r in 0..3 and each request unit of the exchange (info / players / rules) every aligned fault vector silent^j (or failed sends) followed by a valid or malformed "
+RULE = ("for r in 0..3 and each request unit of the exchange (Valve info / players / rules, Unreal 2 info / mutators+rules / players under Try and Enforce, the whole exchange for Quake, GameSpy 1/2/3, JC2-MP, Mindustry, Bedrock) "
+        "every aligned fault vector of j timeout-class attempts (no reply, failed send, challenge then silence, some parts of a multi-packet reply then silence, handshake answered then failed data request) followed by a valid or malformed "
         "reply, j <= r+1, injected at that unit while the others answer at once; non-trivial = at least one fault injected; distinct by case bytes")
 
 
@@ -92,6 +96,189 @@ def gen_cases(tier, rng):
                         cases.append({"id": "qfault/%d/r%d/%s" % (q["seed"], r, "-".join(vec)),
                                       "hex": quake_case(27960, q["ver"], {"retries": r}, evs, fails),
                                       "meta": {"stream": "quake-faults", "expected": exp, "vec": vec, "r": r, "unit": 0, "attempts": made, "quake": True}})
+    cases += whole_exchange_rows(tier, rng)
+    cases += unreal2_rows(tier, rng)
+    return cases
+
+
+# ---- protocols whose whole exchange is the retried unit -------------------------------------
+# GameSpy 1 / 2 (one request, one or more reply parts), GameSpy 3 and JC2M (handshake + data request,
+# one or more packets), Mindustry and Minecraft Bedrock (one request, one reply).
+GARBAGE = {"gs1": b"\\queryid\\1.1.1\\final\\", "gs2": b"\x01\x00\x00\x00\x01", "gs3": b"\x42\x00\x00\x00\x01", "jc2m": b"\x42\x00\x00\x00\x01",
+           "mindustry": b"\x05ab", "bedrock": b"\x1d" + bytes(40)}
+
+
+def attempt_script(kind, E, sends_after, garbage):
+    """one attempt -> (events consumed, local index of the failing send or None, sends made)"""
+    if kind[0] == "valid":
+        return list(E), None, len(sends_after)
+    if kind[0] == "sendfail":
+        k = kind[1]
+        return list(E[:sends_after[k]]), k, k + 1
+    p = kind[1]
+    made = sum(1 for a in sends_after if a <= p)
+    return list(E[:p]) + [None if kind[0] == "silent" else garbage], None, made
+
+
+def fault_vectors(r, n_events, n_sends):
+    """vectors of attempts: j timeout-class attempts then (j <= r) a valid or malformed one"""
+    out = []
+    for j in range(r + 2):
+        pres = [[("silent", 0)] * j, [("sendfail", 0)] * j]
+        if j >= 1:
+            mixed = []
+            for i in range(j):
+                if i % 2 == 0 and n_events > 1:
+                    mixed.append(("silent", 1 + (i // 2) % (n_events - 1)))   # some parts arrive, then silence
+                elif n_sends > 1:
+                    mixed.append(("sendfail", 1 + (i // 2) % (n_sends - 1)))  # the handshake is answered, the data request cannot be sent
+                else:
+                    mixed.append(("sendfail", 0) if i % 2 else ("silent", 0))
+            pres.append(mixed)
+        for pre in pres:
+            if j <= r:
+                finals = [("valid",), ("malformed", 0)]
+                if n_events > 1:
+                    finals.append(("malformed", n_events - 1))
+                for f in finals:
+                    out.append(pre + [f])
+            else:
+                out.append(pre)
+    uniq = []
+    for v in out:
+        if v not in uniq:
+            uniq.append(v)
+    return uniq
+
+
+def whole_exchange_rows(tier, rng):
+    n = 2 if tier == "quick" else 12
+    protos = []
+    for ver in (1, 2, 3):
+        got = 0
+        for sp in gs_specs(ver, [rng.fork("gs%d/%d" % (ver, i)).next() >> 1 for i in range(n * 4)]):
+            if not sp["fits"] or sp["expected"].startswith("Err(") or got >= n:
+                continue
+            got += 1
+            ok = sp["expected"] if sp["expected"].startswith("Ok(") else "Ok(" + sp["expected"] + ")"
+            sends_after = [0, 1] if ver == 3 else [0]
+            protos.append(("gs%d" % ver, sp["seed"], sp["events"], sends_after, ok,
+                           lambda ts, evs, fails, ver=ver: gs_case(ver, 2000 + ver, 0, ts, evs, fails)))
+    for game, name, sends_after in ((2, "jc2m", [0, 1]), (3, "mindustry", [0])):
+        seeds = [rng.fork("g%d/%d" % (game, i)).next() % (1 << 48) for i in range(n * 3)]
+        outs = run_model([(bytes([150, game]) + s.to_bytes(8, "big")).hex() for s in seeds])
+        got = 0
+        for s, o in zip(seeds, outs):
+            parts = o.split("|")
+            tags = dict(kv.split("=", 1) for kv in parts[-1].split(";"))
+            evs = [bytes.fromhex(x) for x in parts[0].split(",")] if parts[0] else []
+            expected = "|".join(parts[1:-1])
+            if int(tags["max"]) > (2048, 500)[game - 2] or tags.get("wf") == "false" or expected.startswith("Err(") or got >= n:
+                continue
+            got += 1
+            if not expected.startswith("Ok("):
+                expected = "Ok(" + expected + ")"
+            protos.append((name, s, evs, sends_after, expected,
+                           lambda ts, evs, fails, game=game: (bytes([50, game]) + (7777).to_bytes(2, "big") + enc_ts(ts) + enc_events(evs) + b"\x00\x00"
+                                                              + bytes([len(fails)]) + b"".join(i.to_bytes(2, "big") for i in fails)).hex()))
+    # Minecraft Bedrock
+    seeds = [rng.fork("mc/%d" % i).next() % (1 << 48) for i in range(n * 6)]
+    outs = run_model([(bytes([133]) + s.to_bytes(8, "big") + bytes([2])).hex() for s in seeds])
+    got = 0
+    for s, o in zip(seeds, outs):
+        if o == "SKIP" or o.startswith("BADCASE") or got >= n:
+            continue
+        parts = o.split("|")
+        udp = [None if x == "T" else bytes.fromhex(x) for x in parts[0].split(",")] if parts[0] else []
+        expected = "|".join(parts[2:-2])
+        if not expected.startswith("Ok(") or len(udp) != 1 or udp[0] is None:
+            continue
+        got += 1
+
+        def mk(ts, evs, fails):
+            scr = len(evs).to_bytes(2, "big") + b"".join(b"\x00" if e is None else b"\x01" + len(e).to_bytes(4, "big") + e for e in evs)
+            scr += b"\x00\x00" + bytes([len(fails)]) + b"".join(i.to_bytes(2, "big") for i in fails)
+            return (bytes([33, 2]) + (19132).to_bytes(2, "big") + b"\x00" + enc_ts(ts) + scr + b"\x00").hex()
+        protos.append(("bedrock", s, udp, [0], expected, mk))
+    cases = []
+    for name, seed, E, sends_after, ok, mk in protos:
+        if not E:
+            continue
+        for r in range(4):
+            for vi, vec in enumerate(fault_vectors(r, len(E), len(sends_after))):
+                evs, fails, sends = [], [], 0
+                for a in vec:
+                    ev, fk, made = attempt_script(a, E, sends_after, GARBAGE[name])
+                    evs += ev
+                    if fk is not None:
+                        fails.append(sends + fk)
+                    sends += made
+                kinds = [a[0] for a in vec]
+                o, made, last = unit_outcome(kinds, r)
+                exp = ok if o == "ok" else (None if o == "malformed" else ("Err(PacketSend)" if last == "sendfail" else "Err(PacketReceive)"))
+                cases.append({"id": "xfault/%s/%d/r%d/%d" % (name, seed, r, vi), "hex": mk({"retries": r}, evs, fails),
+                              "meta": {"stream": name + "-faults", "expected": exp, "outcome": o, "vec": ["%s@%s" % (a[0], a[1]) if len(a) > 1 else a[0] for a in vec],
+                                       "r": r, "unit": 0, "attempts": made, "whole": True}})
+    return cases
+
+
+# ---- Unreal 2: each of the three requests (send + first reply) is a retried unit -----------
+U2_REQ = ["7900000000", "7900000001", "7900000002"]
+U2_BAD = [b"\x80\x00\x00\x00\x00\x01", b"\x80\x00\x00\x00\x01\x05\x41", b"\x80\x00\x00\x00\x02\x01"]
+
+
+def unreal2_rows(tier, rng):
+    cases = []
+    for seed in [rng.fork("u2/%d" % i).next() >> 1 for i in range(2 if tier == "quick" else 12)]:
+        exp = {(tp, tm): u2_specs([seed], (tp, tm))[0] for tp in (0, 1) for tm in (0, 1)}
+        evs = exp[(1, 1)]["events"]
+        if None not in evs:
+            continue
+        ti = evs.index(None)
+        info, mr_dgs, pl_dgs = evs[0], evs[1:ti], evs[ti + 1:]
+        if not mr_dgs or not pl_dgs:
+            continue
+        for gather in ((2, 2), (1, 1)):
+            for r in range(4):
+                for unit in range(3):
+                    for j in range(r + 2):
+                        for tk in ("silent", "sendfail", "mixed"):
+                            if tk == "mixed" and j < 2:
+                                continue
+                            pre = [("silent" if i % 2 == 0 else "sendfail") if tk == "mixed" else tk for i in range(j)]
+                            for final in (["valid", "malformed"] if j <= r else [None]):
+                                vec = pre + ([final] if final else [])
+                                script, fails, sends = [], [], 0
+                                for u in range(3):
+                                    uvec = vec if u == unit else ["valid"]
+                                    stop = False
+                                    for a in uvec:
+                                        if a == "silent":
+                                            script.append(None)
+                                        elif a == "sendfail":
+                                            fails.append(sends)
+                                        elif a == "malformed":
+                                            script.append(U2_BAD[u])
+                                        else:
+                                            script += [info] if u == 0 else ((mr_dgs + [None]) if u == 1 else pl_dgs)
+                                        sends += 1
+                                    if u == unit:
+                                        o, made, last = unit_outcome(vec, r)
+                                        if o != "ok" and (u == 0 or gather == (2, 2)):
+                                            stop = True
+                                    if stop:
+                                        break
+                                o, made, last = unit_outcome(vec, r)
+                                if o == "ok":
+                                    want = "Ok(" + exp[(1, 1)]["expected"] + ")"
+                                elif unit == 0 or gather == (2, 2):
+                                    want = None if o == "malformed" else ("Err(PacketSend)" if last == "sendfail" else "Err(PacketReceive)")
+                                else:
+                                    want = "Ok(" + exp[(0 if unit == 2 else 1, 0 if unit == 1 else 1)]["expected"] + ")"
+                                cases.append({"id": "u2fault/%d/g%d%d/r%d/u%d/%s" % (seed, gather[0], gather[1], r, unit, "-".join(vec)),
+                                              "hex": u2_case(7778, gather, {"retries": r}, script, fails),
+                                              "meta": {"stream": "unreal2-faults", "expected": want, "outcome": o, "vec": vec, "r": r, "unit": unit, "attempts": made,
+                                                       "u2req": U2_REQ[unit]}})
     return cases
 
 
@@ -100,6 +287,18 @@ def oracle(case, impl, side):
     m = case["meta"]
     if "PANIC" in (res or "") or res == "ABORT":
         return ("panic", "panicked: " + side[:200])
+    if m.get("whole") or m.get("u2req"):
+        sends = [t.split(":", 1)[1] for t in trace.split(";") if t.startswith("S")]
+        if m["expected"] is None:
+            if not res.startswith("Err(") or res in ("Err(PacketReceive)", "Err(PacketSend)"):
+                return ("retry-result", "%s fault vector %s at unit %d with r=%d: a malformed reply must end the query with its own error, got %s" % (m["stream"], m["vec"], m["unit"], m["r"], res[:200]))
+        elif res != m["expected"]:
+            return ("retry-result", "%s fault vector %s at unit %d with r=%d: got %s expected %s" % (m["stream"], m["vec"], m["unit"], m["r"], res[:200], m["expected"][:200]))
+        first = m.get("u2req") or (sends[0] if sends else "")
+        n = sum(1 for x in sends if x == first)
+        if n != m["attempts"] or n > m["r"] + 1:
+            return ("retry-attempts", "%s fault vector %s at unit %d with r=%d: %d attempts, expected %d" % (m["stream"], m["vec"], m["unit"], m["r"], n, m["attempts"]))
+        return None
     if res != m["expected"]:
         return ("retry-result", "fault vector %s at unit %d with r=%d: got %s expected %s" % (m["vec"], m["unit"], m["r"], res[:200], m["expected"][:200]))
     if m.get("quake"):
@@ -114,4 +313,4 @@ def oracle(case, impl, side):
 
 
 def nontrivial(case, model):
-    return case["meta"]["vec"] != ["valid"]
+    return case["meta"]["vec"] not in (["valid"], [["valid"]])
